@@ -200,62 +200,157 @@ func ruleDistributor(w *World, r *Report, pfx string) {
 		r.Unresolved("anchor", "distributor", "no unique go target receiving from and sending on the column channels")
 		return
 	}
-	col := (*ssa.Parameter)(nil)
-	for _, p := range d.Params {
-		if s, ok := p.Type().Underlying().(*types.Slice); ok {
-			if _, ok := s.Elem().Underlying().(*types.Chan); ok {
-				col = p
+	colOf := func(f *ssa.Function) *ssa.Parameter {
+		for _, p := range f.Params {
+			if s, ok := p.Type().Underlying().(*types.Slice); ok {
+				if _, ok := s.Elem().Underlying().(*types.Chan); ok {
+					return p
+				}
 			}
 		}
+		return nil
 	}
+	col := colOf(d)
 	if col == nil {
 		r.Undecided(rule, "distributor", w.pos(d.Pos()), "column parameter not found")
 		return
 	}
+	// the collect select and the distribute send: in the distributor or in a private helper it calls
 	var send *ssa.Send
 	var sel *ssa.Select
-	for _, op := range w.Comm().byFn[d] {
-		if op.Kind == "send" {
-			send = op.Instr.(*ssa.Send)
-		}
-		if op.Kind == "select" {
-			sel = op.Instr.(*ssa.Select)
+	var fnC, fnS *ssa.Function
+	for _, g := range w.staticHelpers(d, 2) {
+		for _, op := range w.Comm().byFn[g] {
+			if op.Kind == "send" && op.Class.has("WC.wsync") {
+				send, fnS = op.Instr.(*ssa.Send), g
+			}
+			if op.Kind == "select" {
+				sel, fnC = op.Instr.(*ssa.Select), g
+			}
 		}
 	}
 	if send == nil || sel == nil {
 		r.Violated(rule, "distributor", w.pos(d.Pos()), "the distributor lacks its collect select or its distribute send")
 		return
 	}
-	loops := naturalLoops(d)
-	lc, ls := innermostLoop(loops, sel.Block()), innermostLoop(loops, send.Block())
+	// a helper works on the distributor's own column
+	helperCall := map[*ssa.Function]*ssa.Call{}
+	for _, g := range []*ssa.Function{fnC, fnS} {
+		if g == d {
+			continue
+		}
+		gc := colOf(g)
+		okCol := gc != nil
+		idx := -1
+		if okCol {
+			for i, q := range g.Params {
+				if q == gc {
+					idx = i
+				}
+			}
+		}
+		n := 0
+		for _, site := range w.callers[g] {
+			c, isCall := site.(*ssa.Call)
+			if !isCall || site.Parent() != d || idx < 0 || idx >= len(c.Call.Args) || c.Call.Args[idx] != ssa.Value(col) {
+				okCol = false
+				continue
+			}
+			helperCall[g] = c
+			n++
+		}
+		if !okCol || n != 1 {
+			r.Undecided(rule, "distributor", w.pos(d.Pos()), "collect / distribute helper is not called exactly once by the distributor with its column")
+			return
+		}
+	}
+	lc, ls := innermostLoop(naturalLoops(fnC), sel.Block()), innermostLoop(naturalLoops(fnS), send.Block())
 	bad := ""
-	elemOf := func(ch ssa.Value, l *loopInfo) bool {
+	elemOf := func(ch ssa.Value, l *loopInfo, c *ssa.Parameter) bool {
 		ld, ok := ch.(*ssa.UnOp)
 		if !ok || ld.Op != token.MUL {
 			return false
 		}
 		ia, ok := ld.X.(*ssa.IndexAddr)
-		if !ok || ia.X != ssa.Value(col) {
+		if !ok || ia.X != ssa.Value(c) {
 			return false
 		}
-		iw := w.loopIndexWalk(l, col)
+		iw := w.loopIndexWalk(l, c)
 		return iw.OK && iw.CoversAll
 	}
+	// where collection / distribution happen in the distributor itself
+	at := func(g *ssa.Function, in ssa.Instruction) ssa.Instruction {
+		if g == d {
+			return in
+		}
+		return helperCall[g]
+	}
 	switch {
-	case lc == nil || ls == nil || lc.Header == ls.Header:
+	case lc == nil || ls == nil || (fnC == fnS && lc.Header == ls.Header):
 		bad = "collect and distribute are not two separate loops (every bar must have sent its width before any gets the maximum)"
-	case !elemOf(sel.States[recvStateOn(w, sel, "WC.wsync")].Chan, lc):
+	case !elemOf(sel.States[recvStateOn(w, sel, "WC.wsync")].Chan, lc, colOf(fnC)):
 		bad = "the collect loop does not receive from every entry of the column"
-	case !elemOf(send.Chan, ls):
+	case !elemOf(send.Chan, ls, colOf(fnS)):
 		bad = "the distribute loop does not send on every entry of the column"
-	case !instrReaches(sel, send):
+	case !instrReaches(at(fnC, sel), at(fnS, send)) || (at(fnC, sel) != at(fnS, send) && fnC != fnS && instrReaches(at(fnS, send), at(fnC, sel))):
 		bad = "distribution does not follow collection"
+	}
+	// a cycle abandoned during collection distributes nothing (paths of the distributor, helpers inlined)
+	if bad == "" {
+		dropIdx := -1
+		for i := range sel.States {
+			if i != recvStateOn(w, sel, "WC.wsync") {
+				dropIdx = i
+			}
+		}
+		w.enumPaths(d, pathOpts{InlineDepth: 2, Inline: func(_ ssa.CallInstruction, c *ssa.Function) bool { return c == fnC || c == fnS }}, func(p *Path) {
+			dropped := false
+			for _, a := range p.Atoms {
+				if s2, k, eq := p.selectArm(a); s2 == sel && eq && k == dropIdx {
+					dropped = true
+				}
+			}
+			if !dropped {
+				return
+			}
+			for _, ev := range p.Events {
+				if ev.In == ssa.Instruction(send) {
+					bad = "widths are distributed although the cycle was abandoned during collection"
+				}
+			}
+		})
+	}
+	// the value sent: the collect loop's running maximum, directly or as the helper's result
+	sentPhi := func() (*ssa.Phi, bool) {
+		if phi, ok := send.X.(*ssa.Phi); ok && fnC == fnS && phi.Block() == lc.Header {
+			return phi, true
+		}
+		if fnC != d && fnS == d {
+			ex, ok := w.origin(send.X).(*ssa.Extract)
+			if !ok || ex.Tuple != ssa.Value(helperCall[fnC]) {
+				return nil, false
+			}
+			var phi *ssa.Phi
+			for _, b := range fnC.Blocks {
+				ret, ok := b.Instrs[len(b.Instrs)-1].(*ssa.Return)
+				if !ok || ex.Index >= len(ret.Results) {
+					continue
+				}
+				q, ok := ret.Results[ex.Index].(*ssa.Phi)
+				if !ok || q.Block() != lc.Header || (phi != nil && phi != q) {
+					return nil, false
+				}
+				phi = q
+			}
+			return phi, phi != nil
+		}
+		return nil, false
 	}
 	if bad == "" {
 		// the sent value is the collect loop's running maximum: a header phi starting at 0 whose per-iteration
 		// update is: the received width under (received > max), itself otherwise
-		phi, ok := send.X.(*ssa.Phi)
-		if !ok || phi.Block() != lc.Header {
+		phi, ok := sentPhi()
+		if !ok {
 			bad = "the value distributed is not the running maximum of the collect loop"
 		} else {
 			for i, e := range phi.Edges {
@@ -278,7 +373,7 @@ func ruleDistributor(w *World, r *Report, pfx string) {
 			}
 			isMax := func(v Val) bool { return v.V == ssa.Value(phi) }
 			sawTake, sawKeep := false, false
-			w.enumPaths(d, pathOpts{Start: body, StopAt: func(b *ssa.BasicBlock) bool { return b == lc.Header }}, func(p *Path) {
+			w.enumPaths(fnC, pathOpts{Start: body, StopAt: func(b *ssa.BasicBlock) bool { return b == lc.Header }}, func(p *Path) {
 				if bad != "" || p.Exit != "stop" || p.armTaken(sel) != recvIdx {
 					return
 				}
